@@ -9,6 +9,12 @@ the mutated package):
     lru-no-del             lrucache.Put does not unmap the evicted key               VIOLATION at LGetPut (stale value)
     sortlist-merge-skip    merge skipped when leftLast < middle of the right run     VIOLATION at SLBuild (missed at first;
                            caught after adding the "skew" scenario: every other block from a low key band)
+    seeded/C39-sortlist-full-last-block  Builder.Sort takes the last block's length from IndexFunc without the
+                           `>= 0` guard (a full last block is not re-sorted)                 VIOLATION at SLBuild mode=resorted
+                           (independently written seed; missed at first: re-sorts only ran on sizes 2 and 100..3000;
+                           caught after adding re-sorts of exactly 4096 / 8192 (and 4095 / 4097) items in both
+                           flavours NewUnsorted+Finish+Sort and NewSorting(other order)+Finish+Sort, each read
+                           twice through Builder.Iter; check with bin/seedtest seeded/C39-sortlist-full-last-block)
   killed by the package's own tests already: ranges-overlap-touch (`to > from`), ranges-contains-lt,
     ranges-inc (inc-- dropped), ranges-contains-nosize, ordset-any-lt (`< to`), ordset-any-nextleaf,
     ordset-contains-nosize, shmap-del-notomb (never tombstone), roaring-has-bitmap (bit 65535)
@@ -16,7 +22,7 @@ the mutated package):
 
 META = {
  "engine": "tla-ranges",
- "text": "TLC exhausts Ranges.tla (every sequence of up to 4-5 inserts of every interval over 4-5 points: the range set as the code keeps it -- sorted sequence, binary search, coalescing -- equals the declarative set of disjoint intervals, Contains = covered by something inserted, returned increments add up to the number of intervals, re-insert reports Existed; ordered set: AnyInRange as coded = exists key in [from,to]); the REAL packages are driven with seeded random and boundary-biased sequences (nasty keys incl. the empty string, touching/nested/overlapping ranges, > 128 entries so that the in-memory btrees split, bulk fills until Insert reports full) and every call is replayed by TLC trace validation against the abstract types: ranges (Insert result and Contains), ordset (Insert/Contains/AnyInRange/Empty), sortlist (sorted permutation of the input, Builder.Iter, forward/backward passes, Seek/Next/Prev/Rewind cursor), bloom (no false negatives), roaring (exact membership incl. array->bitmap conversion), shmap (Put/Get/Has/Del/GetInit/Copy/Clear/Size/Iter with colliding hashes), cache and lrucache (returns f(key); hit only for a key stored before; no eviction before the requested capacity)",
+ "text": "TLC exhausts Ranges.tla (every sequence of up to 4-5 inserts of every interval over 4-5 points: the range set as the code keeps it -- sorted sequence, binary search, coalescing -- equals the declarative set of disjoint intervals, Contains = covered by something inserted, returned increments add up to the number of intervals, re-insert reports Existed; ordered set: AnyInRange as coded = exists key in [from,to]); the REAL packages are driven with seeded random and boundary-biased sequences (nasty keys incl. the empty string, touching/nested/overlapping ranges, > 128 entries so that the in-memory btrees split, bulk fills until Insert reports full) and every call is replayed by TLC trace validation against the abstract types: ranges (Insert result and Contains), ordset (Insert/Contains/AnyInRange/Empty), sortlist (sorted permutation of the input for 0..3 blocks incl. exactly full last blocks, re-sort with Builder.Sort after Finish, Builder.Iter, forward/backward passes, Seek/Next/Prev/Rewind cursor), bloom (no false negatives), roaring (exact membership incl. array->bitmap conversion), shmap (Put/Get/Has/Del/GetInit/Copy/Clear/Size/Iter with colliding hashes), cache and lrucache (returns f(key); hit only for a key stored before; no eviction before the requested capacity)",
  "note": "trusts TLC/CommunityModules Json and the driver's rank->key table (asserted strictly monotone); 'Full'/'false' from Insert is accepted (state unchanged) only once at least one node's worth (128) of entries exists -- the exact capacity depends on split history and is not specified; sortlist items are pairwise distinct integers (key in the high bits)",
  "technique": "TLA+ model checking (TLC) + trace validation of logged calls on the real packages",
 }
